@@ -19,6 +19,28 @@ from pathlib import Path
 from lv import families, harness, monitor, tlc
 from lv.families import UNL
 
+def with_prior_abort(job, rnd):
+    # fail-fast configurations on a process backend: half of the runs follow an earlier call on the same Lab and the same
+    # task instances that was aborted by a (context-driven) task failure while other tasks were still queued or running
+    c = job['cfg']
+    if not c['cof'] and c['backend'] != 'serial' and rnd.random() < 0.5:
+        job['prior_abort'] = rnd.randrange(1, c['n'] + 1)
+
+
+def with_prior_call_or_abort(job, rnd):
+    with_prior_abort(job, rnd)
+    if 'prior_abort' not in job:
+        with_prior_call(job, rnd)
+
+
+def with_nulls(job, rnd):
+    # C01: a fifth of the runs have tasks whose run() returns None (a legitimate result)
+    if rnd.random() < 0.2:
+        n = job['cfg']['n']
+        job['cfg'] = dict(job['cfg'], nulls=sorted(rnd.sample(range(1, n + 1), rnd.randrange(1, n + 1))))
+    with_prior_call(job, rnd)
+
+
 def with_prior_call(job, rnd):
     # a quarter of the runs are preceded by another run_tasks call on the same task instances (shape seeds that are
     # multiples of 3 never build fresh equal instances, so the instances really are shared)
@@ -48,7 +70,7 @@ I_INVS = ['I_Pdeps', 'I_Pdependents', 'I_Future', 'I_RunningCap']
 
 SPECS = {
     'C01': dict(
-        jobfn=with_prior_call, wide_displays=True,
+        jobfn=with_nulls, wide_displays=True,
         invs=['A_C01_Returns', 'A_C01_Keys', 'A_C01_Values', 'A_C01_Digest'], props=[],
         fam=dict(quick=dict(n=3, ntypes=1, maxpars=(UNL,), maxws=(1, 2), backends=('fork', 'spawn', 'serial'),
                             cached='all-subsets', reqs='rich', busts=(False, True), sample=6500),
@@ -56,10 +78,10 @@ SPECS = {
                                cached='all-subsets', reqs='rich', busts=(False, True))),
         title='returned dict = requested tasks in order, each with its own reference value'),
     'C02': dict(
-        jobfn=with_prior_call,
+        jobfn=with_prior_call_or_abort,
         invs=['A_C02_RealResult'], props=['A_C02_SubmitAfterDeps', 'A_C02_RunAfterDeps', 'A_C02_StartAfterSubmit'],
         fam=dict(quick=[dict(n=3, ntypes=1, maxpars=(UNL,), maxws=(1, 2), backends=('fork', 'spawn', 'serial'),
-                             cached='none', reqs='subsets', fails='singles'),
+                             cached='none', reqs='subsets', fails='singles', cofs=(True, False)),
                         dict(n=3, ntypes=1, maxpars=(UNL,), maxws=(2,), backends=('fork', 'serial'), cached='all-subsets',
                              reqs='roots', badloads='singles', nonempty_deps=True),
                         dict(n=3, ntypes=1, maxpars=(UNL,), maxws=(2,), backends=('fork', 'serial'), cached='all-subsets',
@@ -77,13 +99,18 @@ SPECS = {
                                tcache_opts=[(True, True), (False, True), (False, False)])),
         title='at most one execution/load per distinct task, only inside the needed closure, load iff cached'),
     'C04': dict(
+        jobfn=with_prior_abort,
         invs=['A_C04_Workers', 'A_C04_Type'], props=[], wide=True,
         fam=dict(quick=[dict(n=3, ntypes=2, maxpars=(1, 2, UNL), maxws=(1, 2, 3), backends=('fork', 'serial'),
-                             cached='none', reqs='roots', fails='singles', sample=2500),
+                             cached='none', reqs='roots', fails='singles', cofs=(True, False), sample=2500),
                         dict(n=4, ntypes=1, maxpars=(2,), maxws=(3, 4), backends=('fork',), cached='none',
                              reqs='roots', max_edges=1, must=True, tcache_opts=[(True,), (False,)]),
                         dict(n=3, ntypes=1, maxpars=(1, 2), maxws=(3,), backends=('fork',), cached='all-subsets', busts=(True,),
                              reqs='roots', max_edges=1, sample=40, must=True),
+                        # fail-fast runs over independent tasks of a limited and an unlimited type, more of them than workers
+                        # (they follow an earlier aborted call on the same Lab: with_prior_abort)
+                        dict(n=5, ntypes=2, maxpars=(UNL, 1), maxws=(2,), backends=('fork', 'spawn'), cached='none', reqs='subsets',
+                             cofs=(False,), max_edges=0, sample=160, must=True),
                         # limited types whose tasks occur only as dependencies of the requested ones
                         dict(n=3, ntypes=2, maxpars=(1, 2), maxws=(3,), backends=('fork',), cached='none', reqs='roots',
                              nonempty_deps=True, sample=60, must=True)],
@@ -95,9 +122,10 @@ SPECS = {
                                 reqs='roots', max_edges=2, must=True)]),
         title='|slot| <= max_workers and per-type count <= max_parallel in every state'),
     'C05': dict(
+        jobfn=with_prior_abort,
         invs=['A_C05_AtRest'], props=[], wide=True,
         fam=dict(quick=[dict(n=3, ntypes=2, maxpars=(1, 2, UNL), maxws=(1, 2, 3), backends=('fork', 'serial'),
-                             cached='none', reqs='roots', fails='singles', sample=2000),
+                             cached='none', reqs='roots', fails='singles', cofs=(True, False), sample=2000),
                         dict(n=3, ntypes=1, maxpars=(UNL,), maxws=(2, 3), backends=('fork',), cached='all-subsets',
                              reqs='subsets', sample=700),
                         dict(n=4, ntypes=1, maxpars=(2,), maxws=(3, 4), backends=('fork',), cached='none',
